@@ -146,7 +146,16 @@ func (l *lane) restart() {
 
 // runSet delivers a set of exchanges concurrently to the lane's worker; returns false if the worker died.
 func (l *lane) runSet(set []*Exchange, o execOpts, count bool) bool {
+	ok, _ := l.runSet2(set, o, count)
+	return ok
+}
+
+// runSet2 also reports, when the worker died, which exchanges had been ended by the server itself clearly before
+// the death (they cannot be the cause).
+func (l *lane) runSet2(set []*Exchange, o execOpts, count bool) (bool, []bool) {
 	w := l.w
+	doneAt := make([]time.Time, len(set))
+	closed := make([]bool, len(set))
 	var wg sync.WaitGroup
 	sem := make(chan struct{}, 384)
 	// datagram transports have no flow control: a burst overflows the listener's backlog (gosrt: 128 packets) and the
@@ -165,7 +174,7 @@ func (l *lane) runSet(set []*Exchange, o execOpts, count bool) bool {
 			l.d.mu.Unlock()
 		}
 	}()
-	for _, e := range set {
+	for idx, e := range set {
 		if !w.alive() {
 			break
 		}
@@ -176,27 +185,37 @@ func (l *lane) runSet(set []*Exchange, o execOpts, count bool) bool {
 		}
 		mySem <- struct{}{}
 		wg.Add(1)
-		go func(e *Exchange) {
+		go func(idx int, e *Exchange) {
 			defer wg.Done()
 			defer func() { <-mySem }()
-			cl := runExchange(e, w.ports, o)
+			cl, cls := runExchange(e, w.ports, o)
+			closed[idx] = cls
+			doneAt[idx] = time.Now()
 			if count {
 				cmu.Lock()
 				local[e.Seed.Listener+"|"+e.Seed.Name+"|"+mutNames[e.Mut.Kind]+"|"+cl]++
 				cmu.Unlock()
 			}
-		}(e)
+		}(idx, e)
 	}
 	wg.Wait()
 	if udpLike && w.alive() {
 		time.Sleep(200 * time.Millisecond)
 	}
+	cleared := func() []bool {
+		<-w.dead
+		c := make([]bool, len(set))
+		for i := range set {
+			c[i] = closed[i] && !doneAt[i].IsZero() && doneAt[i].Before(w.deadAt.Add(-150*time.Millisecond))
+		}
+		return c
+	}
 	if !w.alive() {
-		return false
+		return false, cleared()
 	}
 	rtsp, api := w.probe(25 * time.Second)
 	if !w.alive() {
-		return false
+		return false, cleared()
 	}
 	if !rtsp || !api {
 		// alive but not answering: not what the property forbids; noted, the worker is replaced
@@ -204,13 +223,71 @@ func (l *lane) runSet(set []*Exchange, o execOpts, count bool) bool {
 		l.d.r.Note("worker alive but probe unanswered (rtsp=%v api=%v) after a set starting with %s; worker replaced", rtsp, api, set[0])
 		l.restart()
 	}
-	return true
+	return true, nil
 }
 
-// process delivers a set; when the worker dies it splits the set and recurses, so that every exchange is delivered
-// to a worker that survives it or is identified as one that kills a fresh worker on its own (twice). It returns the
-// number of culprits found.
-func (l *lane) process(set []*Exchange, depth int) int {
+func (l *lane) recordCulprit(e *Exchange, ci crashInfo) {
+	l.d.culprits.Add(1)
+	what := fmt.Sprintf("listener %s: %s: %s at %s (%s) after exchange %s", e.Seed.Listener, ci.Kind, ci.Msg, ci.Site, ci.Exit, e)
+	l.d.record(ci.key(e.Seed.Listener), what, l.d.replayOf(e, ci), e.ID, true)
+	if e.Mut.Kind == mSeed {
+		l.d.mu.Lock()
+		l.d.skipSeed[e.Seed] = true
+		l.d.mu.Unlock()
+	}
+}
+
+func (l *lane) recordUnattributed(set []*Exchange, ci crashInfo, why string) {
+	ids := make([]int, 0, len(set))
+	for _, e := range set {
+		ids = append(ids, e.ID)
+	}
+	listener := "unattributed"
+	same := true
+	for _, e := range set {
+		if e.Seed.Listener != set[0].Seed.Listener {
+			same = false
+		}
+	}
+	if same {
+		listener = "unattributed:" + set[0].Seed.Listener
+	}
+	l.d.record(ci.key(listener), fmt.Sprintf("worker died (%s: %s at %s) while a set of %d exchanges was delivered; %s",
+		ci.Kind, ci.Msg, ci.Site, len(set), why), map[string]any{"crash": ci.Text, "exchange_ids": ids, "first": set[0].String()}, set[0].ID, false)
+}
+
+// findFast returns the exchanges of set that kill a fresh worker on their own (twice) when delivered with the short
+// drain time. Sets that survive are NOT considered delivered (the short drain may cut an exchange short).
+func (l *lane) findFast(set []*Exchange) []*Exchange {
+	if len(set) == 0 || time.Now().After(l.d.deadline) || l.d.culprits.Load() >= maxCulprits {
+		return nil
+	}
+	l.ensure()
+	l.d.bisectRounds.Add(1)
+	if l.runSet(set, fastOpts, false) {
+		return nil
+	}
+	if len(set) == 1 {
+		l.restart()
+		if l.runSet(set, fastOpts, false) {
+			return nil
+		}
+		l.recordCulprit(set[0], parseCrash(l.w))
+		return []*Exchange{set[0]} // a fresh slice: the caller appends to it
+	}
+	half := len(set) / 2
+	var out []*Exchange
+	out = append(out, l.findFast(set[:half])...)
+	out = append(out, l.findFast(set[half:])...)
+	return out
+}
+
+// process delivers a set with the full drain time; a set the worker survives is done. When the worker dies the
+// culprits are first searched with short deliveries (findFast) and the rest of the set is processed again; if that
+// finds nothing the set is split and both halves are processed with full deliveries. Every exchange therefore ends
+// up delivered to a worker that survives it, or identified as one that kills two fresh workers in a row, or (deadline,
+// budget, not reproducible) listed in an unattributed violation. It returns the number of findings recorded.
+func (l *lane) process(set []*Exchange, slow bool) int {
 	if len(set) == 0 {
 		return 0
 	}
@@ -219,55 +296,73 @@ func (l *lane) process(set []*Exchange, depth int) int {
 		l.d.skipped.Add(int64(len(set)))
 		return 0
 	}
-	if depth > 0 {
-		l.d.bisectRounds.Add(1)
-	}
 	l.ensure()
-	if l.runSet(set, normalOpts, true) {
+	ok, cleared := l.runSet2(set, normalOpts, true)
+	if ok {
 		l.d.r.Eval(len(set))
 		return 0
 	}
 	// the worker died
 	l.d.deaths.Add(1)
 	ci := parseCrash(l.w)
+	if time.Now().After(l.d.deadline) || l.d.culprits.Load() >= maxCulprits {
+		l.d.timedOut.Store(true)
+		l.d.skipped.Add(int64(len(set)))
+		l.recordUnattributed(set, ci, "not narrowed down (internal deadline or attribution budget reached)")
+		return 1
+	}
 	if len(set) == 1 {
 		e := set[0]
-		// confirm on a fresh worker
 		l.restart()
 		if l.runSet(set, normalOpts, false) {
 			l.d.r.Eval(1)
-			l.d.record(ci.key("unattributed"), fmt.Sprintf("worker died once (%s: %s at %s) on exchange %s but not when it was delivered again",
-				ci.Kind, ci.Msg, ci.Site, e), l.d.replayOf(e, ci), e.ID, false)
-			return 0
+			l.recordUnattributed(set, ci, "it did not die when the exchange was delivered again")
+			return 1
 		}
-		ci = parseCrash(l.w)
-		l.d.culprits.Add(1)
+		l.recordCulprit(e, parseCrash(l.w))
 		l.d.r.Eval(1)
-		what := fmt.Sprintf("listener %s: %s: %s at %s (%s) after exchange %s", e.Seed.Listener, ci.Kind, ci.Msg, ci.Site, ci.Exit, e)
-		l.d.record(ci.key(e.Seed.Listener), what, l.d.replayOf(e, ci), e.ID, true)
-		if e.Mut.Kind == mSeed {
-			l.d.mu.Lock()
-			l.d.skipSeed[e.Seed] = true
-			l.d.mu.Unlock()
-		}
 		return 1
 	}
-	if l.d.culprits.Load() >= maxCulprits {
-		l.d.record(ci.key("unattributed"), "worker died; attribution budget exhausted: "+ci.Kind+": "+ci.Msg+" at "+ci.Site,
-			map[string]any{"crash": ci.Text, "first_of_set": set[0].String()}, set[0].ID, false)
-		l.d.skipped.Add(int64(len(set)))
-		return 0
+	if !slow {
+		// first among the exchanges that were still in flight when the worker died, then in the whole set
+		var inflight []*Exchange
+		for i, e := range set {
+			if !cleared[i] {
+				inflight = append(inflight, e)
+			}
+		}
+		var found []*Exchange
+		if len(inflight) < len(set) {
+			found = l.findFast(inflight)
+		}
+		if len(found) == 0 {
+			found = l.findFast(set)
+		}
+		if len(found) > 0 {
+			l.d.r.Eval(len(found))
+			isFound := map[*Exchange]bool{}
+			for _, e := range found {
+				isFound[e] = true
+			}
+			var rest []*Exchange
+			for _, e := range set {
+				if !isFound[e] {
+					rest = append(rest, e)
+				}
+			}
+			return len(found) + l.process(rest, false)
+		}
 	}
 	half := len(set) / 2
-	n := l.process(set[:half], depth+1)
-	n += l.process(set[half:], depth+1)
-	if n == 0 && !l.d.timedOut.Load() {
-		ids := make([]int, 0, len(set))
-		for _, e := range set {
-			ids = append(ids, e.ID)
+	n := l.process(set[:half], true)
+	n += l.process(set[half:], true)
+	if n == 0 {
+		if l.d.timedOut.Load() {
+			l.recordUnattributed(set, ci, "not narrowed down (internal deadline reached)")
+		} else {
+			l.recordUnattributed(set, ci, "neither half reproduces it")
 		}
-		l.d.record(ci.key("unattributed"), fmt.Sprintf("worker died (%s: %s at %s) while a set of %d exchanges was delivered; neither half reproduces it",
-			ci.Kind, ci.Msg, ci.Site, len(set)), map[string]any{"crash": ci.Text, "exchange_ids": ids, "first": set[0].String()}, set[0].ID, false)
+		n = 1
 	}
 	return n
 }
@@ -290,7 +385,7 @@ func (l *lane) runChunk(chunk []*Exchange) bool {
 		keep = append(keep, e)
 	}
 	l.d.mu.Unlock()
-	l.process(keep, 0)
+	l.process(keep, false)
 	return true
 }
 
@@ -550,6 +645,9 @@ func driverMain() {
 			r.Violation(f.key, f.what, f.replay)
 		}
 		sort.Strings(f.culprits)
+		if f.culprits == nil {
+			f.culprits = []string{}
+		}
 		culpritLists[f.key] = f.culprits
 	}
 	if len(culpritLists) > 0 {
